@@ -261,3 +261,60 @@ theorem dqmSlack_cross_labels (label : String) (ubc lbc : Int) (S : Nat) :
   split <;> simp
 
 end Pen
+
+namespace Pen
+
+/-- for ANY coefficient list `cs` carried by pairwise distinct fresh slack labels `ls`: the slack bits can be chosen so that
+    the equality penalty vanishes iff `ub_c − Σaᵢzᵢ` is a subset sum of `cs` (λ > 0) -/
+theorem penalty_zero_iff_reps (terms : List (Label × Int)) (lam : Rat) (hlam : 0 < lam) (ubc : Int) (cs : List Nat)
+    (ls : List Label) (hlen : ls.length = cs.length) (hnd : ls.Nodup) (hfresh : ∀ t ∈ terms, t.1 ∉ ls)
+    (z : Label → Int) (hz : Bin01 z) :
+    (∃ z', Bin01 z' ∧ (∀ v, v ∉ ls → z' v = z v) ∧
+      evalBag (toRat z') (eqTermsCy .binary (castTerms (terms ++ ls.zip (cs.map Int.ofNat))) lam (((-ubc : Int)) : Rat)) = 0)
+    ↔ ∃ t : Nat, Reps cs t ∧ isum z terms + (t : Int) = ubc := by
+  constructor
+  · rintro ⟨z', hz', hag, h0⟩
+    rw [penalty_int z' hz', isum_append] at h0
+    have hk : isum z' terms + isum z' (ls.zip (cs.map Int.ofNat)) + -ubc = 0 := by
+      rcases Decidable.em (isum z' terms + isum z' (ls.zip (cs.map Int.ofNat)) + -ubc = 0) with h | hne
+      · exact h
+      · exfalso
+        have := (penalty_gap lam (Rat.le_of_lt hlam) _).2 hne
+        rw [h0] at this
+        exact absurd hlam (Rat.not_lt.2 this)
+    obtain ⟨bs, hbl, hbd⟩ := isum_slack_as_dot z' hz' ls cs hlen
+    have h1 : isum z' terms = isum z terms := isum_congr z z' terms (fun t ht => hag t.1 (hfresh t ht))
+    refine ⟨dot bs cs, ⟨bs, hbl, rfl⟩, ?_⟩
+    rw [hbd, h1] at hk
+    omega
+  · rintro ⟨t, ⟨bs, hbl, hbd⟩, heq⟩
+    refine ⟨override z ls bs, override_bin z hz ls bs, fun v hv => override_off z ls bs v hv, ?_⟩
+    rw [penalty_int _ (override_bin z hz ls bs), isum_append]
+    apply (penalty_gap lam (Rat.le_of_lt hlam) _).1
+    have h1 : isum (override z ls bs) terms = isum z terms :=
+      isum_congr z _ terms (fun t ht => override_off z ls bs t.1 (hfresh t ht))
+    have h2 : isum (override z ls bs) (ls.zip (cs.map Int.ofNat)) = (dot bs cs : Nat) :=
+      isum_override z ls bs cs hnd hbl hlen
+    rw [h1, h2, hbd]
+    omega
+
+/-- **`cross_zero=True`, the sums with zero penalty, as coded**: slack coefficients `slackLog2 S ++ [a]` (`a` the coefficient of
+    the extra variable: `ub_c − S = lb_c` in the BQM method): the penalty can be made 0 iff `Σaᵢzᵢ ∈ [ub_c − S, ub_c]` or
+    `Σaᵢzᵢ ∈ [ub_c − S − a, ub_c − a]` — for `a = lb_c` the second interval is `[0, S]`, not `{0}` -/
+theorem cross_zero_penalty_zero_iff (terms : List (Label × Int)) (lam : Rat) (hlam : 0 < lam) (ubc : Int) (S a : Nat) (hS : 1 ≤ S)
+    (ls : List Label) (hlen : ls.length = (slackLog2 S ++ [a]).length) (hnd : ls.Nodup) (hfresh : ∀ t ∈ terms, t.1 ∉ ls)
+    (z : Label → Int) (hz : Bin01 z) :
+    (∃ z', Bin01 z' ∧ (∀ v, v ∉ ls → z' v = z v) ∧
+      evalBag (toRat z') (eqTermsCy .binary (castTerms (terms ++ ls.zip ((slackLog2 S ++ [a]).map Int.ofNat))) lam (((-ubc : Int)) : Rat)) = 0)
+    ↔ (ubc - S ≤ isum z terms ∧ isum z terms ≤ ubc) ∨ (ubc - S - a ≤ isum z terms ∧ isum z terms ≤ ubc - a) := by
+  rw [penalty_zero_iff_reps terms lam hlam ubc _ ls hlen hnd hfresh z hz]
+  constructor
+  · rintro ⟨t, ht, heq⟩
+    rcases (cross_zero_values S hS a t).1 ht with h | ⟨h1, h2⟩
+    · left; omega
+    · right; omega
+  · rintro (⟨h1, h2⟩ | ⟨h1, h2⟩)
+    · refine ⟨(ubc - isum z terms).toNat, (cross_zero_values S hS a _).2 (Or.inl (by omega)), by omega⟩
+    · refine ⟨(ubc - isum z terms).toNat, (cross_zero_values S hS a _).2 (Or.inr ⟨by omega, by omega⟩), by omega⟩
+
+end Pen
